@@ -85,7 +85,81 @@ impl BG {
 
     fn fragment(&mut self) -> Vec<Stmt> {
         let mut v = Vec::new();
-        match self.rng.below(22) {
+        match self.rng.below(25) {
+            24 => {
+                // signed comparison (BMI / BPL) whose target is near or more than 127 bytes away: the
+                // long-branch repair has to keep testing N.  Operands preset less than 128 apart (the
+                // recorded family signed_relational_no_overflow_flag starts beyond that)
+                let k1 = self.rng.range(-60, 60) as i32;
+                let k2 = if self.rng.chance(1, 4) { k1 } else { self.rng.range(-60, 60) as i32 };
+                v.push(assign(LV::Var(SA), num(k1)));
+                v.push(assign(LV::Var(SB), num(k2)));
+                let op = *self.rng.pick(&[BinOp::Lt, BinOp::Le, BinOp::Gt, BinOp::Ge]);
+                let n = if self.rng.chance(2, 3) { self.rng.range(33, 40) as usize } else { self.rng.range(1, 3) as usize };
+                let mut body = Vec::new();
+                for i in 0..n {
+                    body.push(assign(LV::Var(if i % 2 == 0 { R } else { C }), num((i as i32 * 5 + 3) & 0xff)));
+                }
+                let cond = bin(op, lvv(SA), lvv(SB));
+                match self.rng.below(3) {
+                    0 => v.push(Stmt::If(cond, Box::new(Stmt::Block(body)), None)),
+                    1 => v.push(Stmt::If(cond, Box::new(Stmt::Block(body)), Some(Box::new(assign(LV::Var(BV), num(9)))))),
+                    _ => {
+                        // loop-back test over the long body
+                        let lim = k1 + self.rng.range(1, 3) as i32;
+                        body.push(Stmt::Expr(Expr::IncDec { lv: LV::Var(SA), post: true, inc: true }));
+                        v.push(assign(LV::Var(SB), num(lim)));
+                        v.push(Stmt::DoWhile(Box::new(Stmt::Block(body)), bin(BinOp::Lt, lvv(SA), lvv(SB))));
+                    }
+                }
+            }
+            22 => {
+                // A holds one byte of a short, the short is shifted in memory (ASL / ROL / LSR / ROR on
+                // the cells, A untouched), the same byte is read again
+                let sv = *self.rng.pick(&[S, T, V]);
+                let hi = self.rng.chance(2, 3);
+                let byte = |hi: bool| if hi { bin(BinOp::Shr, lvv(sv), num(8)) } else { lvv(sv) };
+                if self.rng.chance(1, 3) {
+                    v.push(assign(LV::Var(sv), Expr::Hex(*self.rng.pick(&[0x0280, 0x01c0, 0x7fff, 0x0101]))));
+                }
+                let n = self.rng.range(1, 3) as i32;
+                let op = if self.rng.chance(1, 2) { BinOp::Shl } else { BinOp::Shr };
+                let shift = Stmt::Expr(Expr::OpAssign(op, LV::Var(sv), Box::new(num(n))));
+                let again: Vec<Stmt> = match self.rng.below(3) {
+                    0 => vec![assign(LV::Var(BV), byte(hi)), assign(LV::X, num(0))],
+                    1 => vec![Stmt::If(bin(BinOp::Eq, byte(hi), num(self.small())), Box::new(assign(LV::Var(C), num(1))), Some(Box::new(assign(LV::Var(C), num(2)))))],
+                    _ => vec![assign(LV::Var(BV), byte(hi)), assign(LV::Var(R), lvv(A))],
+                };
+                if self.rng.chance(1, 2) {
+                    v.push(assign(LV::Var(A), byte(hi)));
+                    v.push(shift);
+                    v.extend(again);
+                } else {
+                    // as the demonstration of the cached-byte hazard has it: inside the taken branch of a test of that byte
+                    let k = if sv == V { 1 } else { self.rng.below(3) as i32 };
+                    let mut b = vec![shift];
+                    b.extend(again);
+                    let op = if self.rng.chance(1, 2) { BinOp::Ne } else { BinOp::Eq };
+                    v.push(Stmt::If(bin(op, byte(hi), num(k)), Box::new(Stmt::Block(b)), None));
+                }
+            }
+            23 => {
+                // a postfix step below a shift whose result is 16 bits wide: the statement is walked
+                // once per result byte, the step must happen once
+                let c = self.scalar();
+                let sv = *self.rng.pick(&[S, T]);
+                let inc = self.rng.chance(3, 4);
+                let step = Expr::IncDec { lv: LV::Var(c), post: true, inc };
+                let sh = bin(BinOp::Shl, step, num(8)); // (other counts: recorded family wide_dest_shift)
+                match self.rng.below(3) {
+                    0 => v.push(assign(LV::Var(sv), sh)),
+                    1 => {
+                        let o = [A, BV, C, R].iter().cloned().find(|x| *x != c).unwrap();
+                        v.push(assign(LV::Var(sv), bin(BinOp::Or, Expr::Paren(Box::new(sh)), lvv(o))));
+                    }
+                    _ => v.push(Stmt::Expr(Expr::OpAssign(BinOp::Add, LV::Var(sv), Box::new(sh)))),
+                }
+            }
             20 => {
                 // register holds a known constant and is compared with a VARIABLE (not a constant)
                 let r = self.reg();
